@@ -14,6 +14,7 @@ usage: python -m harness.life_h <jobs.json> <out.ndjson>
 '''
 
 import json
+import os
 import sys
 import threading
 import types
@@ -122,7 +123,7 @@ class Request:
 
 
 class World:
-    def __init__(self):
+    def __init__(self, variant=0):
         self.pending = []  # background steps: (name, fn, args, deferred)
         self.pollers = {}  # kind -> Poller (latest)
         self.all_pollers = []
@@ -146,6 +147,31 @@ class World:
         dawgie.db.close = lambda: None
         dawgie.db.open = lambda: None
         dawgie.db.archive = lambda cb: cb()
+        if variant % 3 == 2:
+            # the PostgreSQL back end's archive step: the REAL dawgie.db.post.archive / ArchiveHandler with the dump
+            # process replaced by its ending -- clean, or (every other time) with a non-zero exit code
+            import dawgie.db.post as post
+            from twisted.internet import error as _tierr
+
+            os.makedirs(os.path.join(WORK, 'rotate'), exist_ok=True)
+            dawgie.context.db_rotate_path = os.path.join(WORK, 'rotate')
+            dawgie.context.db_path = 'user:secret'
+            bad = (variant // 3) % 2 == 1
+
+            def spawn(handler, *_a, **_k):
+                reason = _tierr.ProcessTerminated(exitCode=1) if bad else _tierr.ProcessDone(0)
+                handler.processEnded(twisted.python.failure.Failure(reason))
+
+            def archive(cb):
+                orig = post.twisted.internet.reactor.spawnProcess if hasattr(post.twisted.internet.reactor, 'spawnProcess') else None
+                post.twisted.internet.reactor.spawnProcess = spawn
+                try:
+                    return post.archive(cb)
+                finally:
+                    if orig is not None:
+                        post.twisted.internet.reactor.spawnProcess = orig
+
+            dawgie.db.archive = archive
         dawgie.db.metrics = lambda *a, **k: []
         dawgie.pl.resources.distribution = lambda m: {}
         dawgie.pl.resources.last_runid = lambda: 0
@@ -395,7 +421,7 @@ def not_allowed(name, st, tr):
 
 
 def run_job(job):
-    w = World()
+    w = World(int(job['id']))
     steps = []
 
     def obs():
